@@ -19,11 +19,11 @@ import (
 var extTable = map[string]string{
 	// io
 	"(io.Reader).Read":     "w1",
-	"io.ReadFull":          "w1",
-	"io.ReadAtLeast":       "w1",
+	"io.ReadFull":          "w1;m0.Read.1>1",
+	"io.ReadAtLeast":       "w1;m0.Read.1>1",
 	"(io.Writer).Write":    "",
 	"(io.ReaderAt).ReadAt": "w1",
-	"io.Copy":              "",
+	"io.Copy":              "m0.Write.1>1", // a *bytes.Reader source hands views of its memory to dst.Write
 	"io.ReadAll":           "r=fresh",
 	// crypto/rand
 	"crypto/rand.Read": "w0",
@@ -177,12 +177,20 @@ var viewPkgs = []string{"bytes", "slices", "maps", "bufio", "golang.org/x/crypto
 
 var destNames = map[string]bool{"dst": true, "out": true, "buf": true, "b": true, "p": true, "to": true, "dest": true, "output": true, "result": true, "dest_": true}
 
+type mcall struct {
+	iarg   int
+	method string
+	param  int // parameter index of the method (receiver = 0)
+	target int // argument of the standard function that the method receives there
+}
+
 type extEff struct {
 	writes, keeps []int
-	app           int    // -1 = none
-	res           string // "", fresh, opaque, any, or an index
-	res1          string // result at position 1: "" (not spoken for) or fresh
-	holds         []int  // h<i>: the (interface-typed) result is an object that holds argument i
+	app           int     // -1 = none
+	res           string  // "", fresh, opaque, any, or an index
+	res1          string  // result at position 1: "" (not spoken for) or fresh
+	holds         []int   // h<i>: the (interface-typed) result is an object that holds argument i
+	calls         []mcall // m<i>.<Method>.<p>><j>: calls Method of the interface value in argument i, handing argument j to its parameter p
 }
 
 func parseEff(s string) extEff {
@@ -200,6 +208,20 @@ func parseEff(s string) extEff {
 		case f[0] == 'w':
 			n, _ := strconv.Atoi(f[1:])
 			e.writes = append(e.writes, n)
+		case f[0] == 'm':
+			// m0.Read.1>1
+			var m mcall
+			parts := strings.Split(f[1:], ".")
+			if len(parts) == 3 {
+				m.iarg, _ = strconv.Atoi(parts[0])
+				m.method = parts[1]
+				pt := strings.Split(parts[2], ">")
+				if len(pt) == 2 {
+					m.param, _ = strconv.Atoi(pt[0])
+					m.target, _ = strconv.Atoi(pt[1])
+					e.calls = append(e.calls, m)
+				}
+			}
 		case f[0] == 'h':
 			n, _ := strconv.Atoi(f[1:])
 			e.holds = append(e.holds, n)
